@@ -32,9 +32,22 @@ package xtype
 
 //@ pred NoShape(t *Type) bool = ShapeCount(t) == 0 && !t.ListFixed && !t.Func
 
+// Termination of the TypeOf/applyTo recursion (C13 "never hangs"): the measure is the depth of the go/types
+// type. go/types guarantees (ASSUMED, listed in the evidence) that the element/key types of an unnamed composite
+// type are strictly shallower; nothing of the kind holds for the underlying type of a NAMED type -- a named type
+// may contain itself (type L []L) -- so the obligation at the Named case of applyTo cannot be discharged:
+// known finding F13 (stack overflow for self-referential named slice/pointer/map types).
+//@ ghost TypeDepth(t types.Type) int
+//@ axiom forall t types.Type :: TypeDepth(t) >= 0 && TypeDepth(types.Unalias(t)) <= TypeDepth(t)
+//@ axiom forall p *types.Pointer :: TypeDepth(p.Elem()) < TypeDepth(p)
+//@ axiom forall s *types.Slice :: TypeDepth(s.Elem()) < TypeDepth(s)
+//@ axiom forall a *types.Array :: TypeDepth(a.Elem()) < TypeDepth(a)
+//@ axiom forall m *types.Map :: TypeDepth(m.Key()) < TypeDepth(m) && TypeDepth(m.Elem()) < TypeDepth(m)
+
 // TypeOf / applyTo establish the object invariant of *Type (they and inStruct are the only writers of its shape fields)
 //@ func TypeOf
 //@   props C03 C13
+//@   variant 2*TypeDepth(types.Unalias(t)) + 1
 //@   requires@C13 t != nil && (GoValueType(t) || dynIs[*types.Alias](t))
 //@   assigns nothing
 //@   ensures result != nil && isFresh(result)
@@ -51,6 +64,7 @@ package xtype
 
 //@ func applyTo
 //@   props C03 C13
+//@   variant 2*TypeDepth(t)
 //@   requires rt != nil && t != nil && GoValueType(t) && NoShape(rt)
 //@   assigns rt.*
 //@   ensures TypeFieldsOK(rt)
